@@ -404,6 +404,69 @@ impl Setsum {
     }
 //@ >>
 //@ end
+    // ---------- the operators the store balances its manifest with (`+`, `+=`, `-`, `-=`, default): the trait-impl
+    // headers are dropped, the method bodies are the repository's
+//@ extract setsum/src/lib.rs | impl Default for Setsum :: fn default
+//@ ret r
+//@ post <<
+        r.inv(), r.state@ == zero_state(),
+//@ >>
+//@ bodystart <<
+    proof { lemma_constants_published(); assert forall|i: int| 0 <= i < 8 implies 0 < prime(i) by { lemma_prime_range(i); } }
+//@ >>
+//@ end
+//@ extract setsum/src/lib.rs | impl std::ops::Add<Setsum> for Setsum :: fn add
+//@ ret r
+//@ pre <<
+        self.inv(), rhs.inv(),
+//@ >>
+//@ post <<
+        r.inv(), r.state@ == add_spec(self.state@, rhs.state@),
+//@ >>
+//@ end
+//@ extract setsum/src/lib.rs | impl std::ops::AddAssign<Setsum> for Setsum :: fn add_assign
+//@ pre <<
+        old(self).inv(), rhs.inv(),
+//@ >>
+//@ post <<
+        final(self).inv(), final(self).state@ == add_spec(old(self).state@, rhs.state@),
+//@ >>
+//@ end
+//@ extract setsum/src/lib.rs | impl std::ops::Sub<Setsum> for Setsum :: fn sub
+//@ ret r
+//@ pre <<
+        self.inv(), rhs.inv(),
+//@ >>
+//@ post <<
+        r.inv(), r.state@ == add_spec(self.state@, neg_spec(rhs.state@)),
+//@ >>
+//@ after `let state = add_state(self.state, rhs_state);` <<
+    proof { lemma_sub_is_add_neg(self.state@, rhs.state@, rhs_state@); assert(state@ =~= add_spec(self.state@, neg_spec(rhs.state@))); }
+//@ >>
+//@ end
+//@ extract setsum/src/lib.rs | impl std::ops::SubAssign<Setsum> for Setsum :: fn sub_assign
+//@ pre <<
+        old(self).inv(), rhs.inv(),
+//@ >>
+//@ post <<
+        final(self).inv(), final(self).state@ == add_spec(old(self).state@, neg_spec(rhs.state@)),
+//@ >>
+//@ after `self.state = add_state(self.state, rhs_state);` <<
+    proof { lemma_sub_is_add_neg(old(self).state@, rhs.state@, rhs_state@); assert(self.state@ =~= add_spec(old(self).state@, neg_spec(rhs.state@))); }
+//@ >>
+//@ end
+}
+
+// adding P - b (what invert_state returns, P itself where b is 0) is adding the negation of b
+proof fn lemma_sub_is_add_neg(a: Seq<u32>, b: Seq<u32>, inv: Seq<u32>)
+    requires canon(a), canon(b), inv.len() == 8, forall|i: int| 0 <= i < 8 ==> inv[i] as int == prime(i) - b[i] as int
+    ensures forall|i: int| 0 <= i < 8 ==> add_col(a[i] as int, inv[i] as int, i) == add_col(a[i] as int, neg_spec(b)[i] as int, i)
+{
+    assert forall|i: int| 0 <= i < 8 implies add_col(a[i] as int, inv[i] as int, i) == add_col(a[i] as int, neg_spec(b)[i] as int, i) by {
+        lemma_prime_range(i);
+        vstd::arithmetic::div_mod::lemma_add_mod_noop_right(a[i] as int, prime(i) - b[i] as int, prime(i));
+        assert(neg_spec(b)[i] as int == neg_col(b[i] as int, i));
+    }
 }
 
 } // verus!
